@@ -1005,7 +1005,7 @@ def corr_wrapper(ctx, lean):
         inst = w._instance
         ctx.count(f'wrapper.selected.{type(inst).__name__}')
         x = probes(rng, data)
-        qs = np.array([0.1, 0.5, 0.9, rng.random()])
+        qs = np.array([0.1, 0.5, 0.9, rng.random(), 0.0, 1.0, 1e-12, 1e-9, 1 - 1e-9, 1 - 1e-12])
         for q, arg in (('probability_density', x), ('cumulative_distribution', x), ('percent_point', qs),
                        ('log_probability_density', x), ('pdf', x), ('cdf', x), ('ppf', qs)):
             long = {'pdf': 'probability_density', 'cdf': 'cumulative_distribution', 'ppf': 'percent_point'}.get(q, q)
@@ -1320,10 +1320,113 @@ def search_batch(ctx, rng, counts, deep):
             examine_batch(ctx, spec, data, big_n, rng.randrange(2 ** 31), counts)
 
 
+# ------------------------------------------------------------------ probabilities next to 0 and 1
+Q_TAILS = [0.0, 1.0, 1e-12, 1e-9, 1e-8, 1 - 1e-9, 1 - 1e-12]
+
+
+def examine_tails(ctx, spec, data, counts):
+    """probabilities closer to 0 / 1 than EPSILON (and 0, 1 themselves): the wrapper must hand them to the selected
+    instance untouched (bitwise the instance's own answer), and for the scipy-backed families cdf(ppf(q)) = q with
+    a RELATIVE tolerance in the tails.  (GaussianKDE maps q <= EPSILON / q >= 1-EPSILON to -inf / +inf by design:
+    kde_ppf_boundary_mapping; only the delegation is checked for it.)"""
+    m = fit(spec, data)
+    if isinstance(m, tuple):
+        ctx.count(f'tails.{spec["cls"]}.fit-raises')
+        return
+    if is_const(m):
+        return
+    inst = inst_of(m)
+    wrapper = spec['cls'] == 'Univariate'
+    icls = type(inst).__name__
+    ctx.count(f'tails.{spec["cls"]}' + (f'->{icls}' if wrapper else ''))
+    d = np.asarray(data, dtype=float)
+    span = max(abs(float(d.min())), abs(float(d.max())), float(d.std()))
+    qs = np.array(Q_TAILS)
+
+    def fail(entry_, key, inp, obs, req):
+        counts['failures'] += 1
+        if sum(1 for f in ctx.failing if f['class'] == key) < 3:
+            ctx.fail_input(entry_, dict(inp, spec=spec, data=d.tolist(), law='tails'), obs, req, key)
+
+    def roundtrip(obj):
+        """-> list of (q, x, cdf(x)) violating cdf(ppf(q)) = q in the tails"""
+        r = call(obj.percent_point, qs)
+        if r[0] == 'err':
+            return [('raises', r[1], None)]
+        X = r[1]
+        rb = call(obj.cumulative_distribution, X)
+        if rb[0] == 'err':
+            return [('raises', rb[1], None)]
+        back = rb[1]
+        extra = 1e3 * 2.3e-16 * param_cond(getattr(inst_of(obj), '_params', {}) or {})
+        out = []
+        for q, x, b in zip(qs, X, back):
+            counts['checks'] += 1
+            tol = 1e-6 * min(q, 1 - q) + 8 * 2.3e-16 + extra * min(1.0, max(q, 1e-300) if q < 0.5 else 1.0)
+            if x == x and abs(b - q) <= tol:
+                continue
+            if x == x and math.isfinite(x):
+                # steep end of a support: q only has to lie between the CDF values of the floats around x
+                step = 16 * 2.3e-16 * max(abs(x), span)
+                nb = call(obj.cumulative_distribution, np.array([x - step, x + step]))
+                if nb[0] == 'ok' and nb[1][0] - tol <= q <= nb[1][1] + tol:
+                    continue
+            out.append((float(q), float(x), float(b)))
+        return out
+    if wrapper:
+        for name in ('percent_point', 'ppf'):
+            a, b = call(getattr(m, name), qs), call(inst.percent_point, qs)
+            counts['checks'] += len(qs)
+            same_ = a[0] == b[0] and (bit_equal(a[1], b[1]) if a[0] == 'ok' else a[1].split(':')[0] == b[1].split(':')[0])
+            if not same_:
+                if a[0] == 'ok' and b[0] == 'ok':
+                    i = int(np.argmax(~((a[1] == b[1]) | (np.isnan(a[1]) & np.isnan(b[1])))))
+                    obs = {'q': float(qs[i]), 'wrapper': float(a[1][i]), 'selected_instance': float(b[1][i]),
+                           'selected': icls}
+                else:
+                    obs = {'wrapper': str(a[1])[:100], 'selected_instance': str(b[1])[:100], 'selected': icls}
+                fail(f'Univariate.{name}', 'Univariate.percent_point:differs-from-selected-instance',
+                     {'q': qs.tolist()}, obs,
+                     'Univariate.percent_point(q) is (bitwise) the selected instance\'s percent_point(q), for every q in [0,1]')
+                break
+    if icls == 'GaussianKDE':
+        return
+    bad_i = roundtrip(inst)
+    if bad_i:
+        q, x, b = bad_i[0]
+        fail(f'{icls}.percent_point', f'{icls}.percent_point:cdf-of-ppf-in-tails', {'q': q},
+             {'ppf': x, 'cdf(ppf)': b}, '|cdf(ppf(q)) - q| <= 1e-6 min(q, 1-q) (+ few ulps) for q next to 0 / 1, '
+             'cdf(ppf(0)) = 0, cdf(ppf(1)) = 1')
+    elif wrapper:
+        bad_w = roundtrip(m)
+        if bad_w:
+            q, x, b = bad_w[0]
+            fail('Univariate.percent_point', 'Univariate.percent_point:cdf-of-ppf-in-tails', {'q': q},
+                 {'ppf': x, 'cdf(ppf)': b, 'selected': icls, 'selected_instance_alone': 'passes'},
+                 '|cdf(ppf(q)) - q| <= 1e-6 min(q, 1-q) (+ few ulps) for q next to 0 / 1 through the wrapper')
+
+
+def search_tails(ctx, rng, counts, deep):
+    for rep in range(4 if deep else 1):
+        for cls in ALL:
+            meta, data = gen_data(rng, n=rng.choice([8, 30, 120]))
+            spec = gen_spec(rng, cls, data)
+            spec['opts'].pop('weights', None)
+            examine_tails(ctx, spec, data, counts)
+        # the wrapper over short candidate lists that can only select a scipy-backed family
+        for k in range(4):
+            meta, data = gen_data(rng, n=rng.choice([8, 30, 120]))
+            cands = [SCIPY[(k + 2 * rep) % len(SCIPY)]] if k < 2 else rng.sample(list(SCIPY), 2)
+            examine_tails(ctx, {'cls': 'Univariate', 'opts': {'candidates': cands}}, data, counts)
+        meta, data = gen_data(rng, n=30)
+        examine_tails(ctx, {'cls': 'Univariate', 'opts': {'candidates': ['GaussianKDE']}}, data, counts)
+
+
 def search(ctx, deep):
     rng = ctx.rng('search')
     counts = {'checks': 0, 'failures': 0}
     reps = 10 if deep else 2
+    search_tails(ctx, ctx.rng('search-tails'), counts, deep)
     search_history(ctx, ctx.rng('search-history'), counts, deep)
     search_batch(ctx, ctx.rng('search-batch'), counts, deep)
     for rep in range(reps):
@@ -1374,6 +1477,9 @@ def replay(ctx, payload):
     if 'history' in inp:
         examine_history(ctx, inp['spec'], [np.array(d, dtype=float) for d in inp['history']], inp['seeds'],
                         vc.rng_for(0, 'replay'), counts, True)
+        return any(f['class'] == payload.get('class') for f in ctx.failing[before:])
+    if inp.get('law') == 'tails':
+        examine_tails(ctx, inp['spec'], np.array(inp['data'], dtype=float), counts)
         return any(f['class'] == payload.get('class') for f in ctx.failing[before:])
     if 'batch' in inp:
         examine_batch(ctx, inp['spec'], np.array(inp['data'], dtype=float), inp['batch'], inp['seed'], counts)
